@@ -27,9 +27,8 @@ def run_property(pid: str, tier: str, root: str, quiet=False, write=True):
     mod = importlib.import_module(f"sa.props.{pid.lower()}")
     ctx = Ctx(prog, pid, tier)
     mod.check(ctx)
-    if tier == "thorough":
-        from sa import thorough
-        thorough.sweep(ctx)
+    from sa import thorough
+    thorough.sweep(ctx)
     known = load_known()
     viol, hits = [], []
     for o in ctx.findings():
